@@ -46,7 +46,20 @@ func (x *Exec) subRefSt(st *State, base *Term, owner, name string) *Term {
 	if st.stack[base.S] {
 		st.markStack(r)
 	}
+	if rt, ok := x.refRoot[base.S]; ok {
+		x.setRoot(r, rt)
+	}
 	return r
+}
+
+// setRoot records the allocation root of a reference term (a property of the term itself: term
+// names are unique within one Exec). Two references with different allocation roots are distinct
+// (refs are refK-ary digit strings over pairwise distinct roots; see newRef / subRef).
+func (x *Exec) setRoot(t *Term, root string) {
+	if x.refRoot == nil {
+		x.refRoot = map[string]string{}
+	}
+	x.refRoot[t.S] = root
 }
 
 // markStack records a reference into a non-escaping local variable (ssa.Alloc with Heap == false):
@@ -124,7 +137,7 @@ func (x *Exec) heapStoreFwd(st *State, name string, idx, v *Term) {
 			// keep only entries at references provably distinct from idx: two different fresh roots,
 			// or one reference into fresh memory and one into memory that existed at entry
 			if (fresh && ck == refFresh && isAllocRoot(st, k) && isAllocRoot(st, idx.S)) ||
-				(ci != 0 && ck != 0 && ci != ck) {
+				(ci != 0 && ck != 0 && ci != ck) || x.distinctRoots(k, idx.S) {
 				c.ent[k] = val
 			}
 		}
@@ -135,6 +148,12 @@ func (x *Exec) heapStoreFwd(st *State, name string, idx, v *Term) {
 	}
 	st.fwd[name] = c
 	st.heap[name] = na
+}
+
+func (x *Exec) distinctRoots(a, b string) bool {
+	ra, oka := x.refRoot[a]
+	rb, okb := x.refRoot[b]
+	return oka && okb && ra != rb
 }
 
 func isAllocRoot(st *State, s string) bool {
